@@ -1,6 +1,7 @@
 import NimaVerif.Model.SExp
 import NimaVerif.Drv.Names
 import NimaVerif.Drv.Scope
+import NimaVerif.Drv.Registry
 /-!
 Line-protocol driver: one request per line on stdin, one reply per line on stdout.
 Each topic has its own handler module `NimaVerif/Drv/<Topic>.lean` exporting
@@ -11,7 +12,8 @@ open Nima
 
 def handlers : List (SExp → Option SExp) := [
   Nima.Drv.Names.handle,
-  Nima.Drv.Scope.handle
+  Nima.Drv.Scope.handle,
+  Nima.Drv.Registry.handle
 ]
 
 def dispatch (req : SExp) : SExp :=
